@@ -1,4 +1,382 @@
-/-! Model/C02 — executable model (core Lean only; imports only NibabelModel.Basic.* / other Model files). -/
+/-! Model/C02 — rescaled integer storage (exact `Rat` arithmetic, core Lean only, executable).
+
+Models (pinned tree + `fix:` 37e49301):
+
+* `nibabel/arraywriters.py`  ArrayWriter.scaling_needed (:95-151), SlopeArrayWriter.scaling_needed (:287-311),
+  `_writing_range` (:340-348), `_do_scaling` (:373-393), `_iu2iu` (:395-412), `_range_scale` (:414-438),
+  SlopeInterArrayWriter `_iu2iu` (:539-575), `_range_scale` (:577-684), `make_array_writer` (:720-762),
+  `get_slope_inter`;
+* `nibabel/volumeutils.py`   `array_to_file` (:605-715 scaled path, :586-640 simple paths), `_write_data`
+  (:718-783), `_dt_min_max`, `apply_read_scaling` (:868-925);
+* `nibabel/casting.py`       `floor_exact`/`ceil_exact` (:486-588), `shared_range` (:156-207);
+* header refusals            `analyze.py:772-792`, `spm99analyze.py:65-92`, `nifti1.py:1406-1438`;
+* image classes              `AnalyzeImage.to_file_map` (analyze.py:985-1062), `MGHImage._write_data`
+  (freesurfer/mghformat.py:561-581, calls `array_to_file` with default slope/intercept and NO range check).
+
+What is exact and what is a parameter
+* every number is a `Rat`; `rint` is round-half-to-even on `Rat`; there is no IEEE rounding in the model.
+* `rnd : Rat → Rat` stands for the cast of slope / intercept to the scaler dtype (float32) done by the property
+  setters (`arraywriters.py:322-325, 511-514`).  The theorems treat the STORED `(s, b)` as free rationals; the ideal
+  `(s*, b*)` are what the writer computes with `rnd = id`.
+* `p` is the number of significand bits of the working float type chosen by `array_to_file` (24, 53, 64).
+  `floorExact p` / `sharedRange p` are the exact integer semantics of `casting.floor_exact` / `shared_range`
+  (contract proved in Lemmas/C02: result representable-side of, and inside, the integer range).
+  `workingPrec` is NumPy's promotion table for `working_type` (volumeutils.py:928-972); the overflow-driven upgrade
+  of `best_write_scale_ftype` is NOT modelled (it only widens the working type).
+-/
 namespace Nb.C02
+
+/-! ## numeric helpers -/
+
+/-- absolute value on `Rat` (core has none) -/
+def rabs (x : Rat) : Rat := if x < 0 then -x else x
+
+/-- `np.rint` / `np.round`: round half to even -/
+def rint (x : Rat) : Int :=
+  let f := x.floor
+  let r := x - (f : Rat)
+  if r < 1/2 then f else if 1/2 < r then f + 1 else if f % 2 = 0 then f else f + 1
+
+/-- `np.clip(x, lo, hi)` = `minimum(maximum(x, lo), hi)` (so for `lo > hi` the result is `hi`) -/
+def clipI (x lo hi : Int) : Int := min (max x lo) hi
+
+def clipR (x lo hi : Rat) : Rat := min (max x lo) hi
+
+/-! ## types -/
+
+inductive Err | writer | headerData | headerType | value | castNaN
+  deriving DecidableEq, Repr
+
+/-- integer on-disk type, given by its range; kind `'u'` iff `omin = 0` -/
+structure OutT where
+  omin : Int
+  omax : Int
+  deriving DecidableEq, Repr
+
+def OutT.isU (o : OutT) : Bool := o.omin == 0
+/-- `max(|omin|, |omax|)` -/
+def OutT.absMax (o : OutT) : Int := max (o.omin.natAbs : Int) (o.omax.natAbs : Int)
+
+/-- input dtype: float with `prec` significand bits (11, 24, 53) or an integer type given by its range -/
+inductive InT
+  | flt (prec : Nat)
+  | int (imin imax : Int)
+  deriving DecidableEq, Repr
+
+/-- one input element -/
+inductive Val
+  | fin (r : Rat)
+  | nan | pinf | ninf
+  deriving DecidableEq, Repr
+
+/-! ## casting.floor_exact / ceil_exact / shared_range (exact integer semantics) -/
+
+/-- `floor_exact(v, flt)` for a float type with `p` significand bits, `|v|` below the float's overflow threshold:
+    the largest integer `≤ v` exactly representable (casting.py:486-548). -/
+def floorExact (p : Nat) (v : Int) : Int :=
+  let a := v.natAbs
+  if a < 2 ^ p then v
+  else
+    let g : Int := ((2 ^ (a.log2 + 1 - p) : Nat) : Int)
+    (v / g) * g
+
+def ceilExact (p : Nat) (v : Int) : Int := - floorExact p (-v)
+
+/-- `shared_range(flt, int_type)` (casting.py:156-207; `TRUNC_UINT64` is False on this platform) -/
+def sharedRange (p : Nat) (o : OutT) : Int × Int := (ceilExact p o.omin, floorExact p o.omax)
+
+/-- NumPy promotion in `working_type` (volumeutils.py:928-972) for a float32 slope / intercept:
+    float16/float32 and 8/16-bit integers work in float32, everything else in float64. -/
+def workingPrec : InT → Nat
+  | .flt prec => if prec ≤ 24 then 24 else prec
+  | .int imin imax => if -32768 ≤ imin ∧ imax ≤ 65535 then 24 else 53
+
+/-! ## finite_range (volumeutils.py `finite_range`) -/
+
+/-- `(mn, mx)` of the finite values (`none` = no finite value, i.e. `(inf, -inf)`) and `has_nan` -/
+def finiteRange : List Val → Option (Rat × Rat) × Bool
+  | [] => (none, false)
+  | v :: rest =>
+    let (fr, hn) := finiteRange rest
+    match v with
+    | .fin r => (some (match fr with | none => (r, r) | some (a, b) => (min r a, max r b)), hn)
+    | .nan => (fr, true)
+    | _ => (fr, hn)
+
+/-! ## ArrayWriter.scaling_needed -/
+
+/-- `np.can_cast(in, out)` for integer `out`: safe casting = range containment; floats never cast safely -/
+def canCast (i : InT) (o : OutT) : Bool :=
+  match i with
+  | .int a b => decide (o.omin ≤ a) && decide (b ≤ o.omax)
+  | .flt _ => false
+
+/-- `ArrayWriter.scaling_needed` (arraywriters.py:95-151), integer `out` -/
+def awScalingNeeded (i : InT) (o : OutT) (data : List Val) : Bool :=
+  if canCast i o then false
+  else if data.isEmpty then false
+  else
+    match (finiteRange data).1, i with
+    | some (mn, mx), .flt _ => !(mn == 0 && mx == 0)
+    | none, .flt _ => true
+    | some (mn, mx), .int _ _ =>
+        if mn == 0 && mx == 0 then false else !(decide ((o.omin : Rat) ≤ mn) && decide (mx ≤ (o.omax : Rat)))
+    | none, .int _ _ => false   -- unreachable: integer data are all finite
+
+/-- `SlopeArrayWriter.scaling_needed` (:287-311): additionally False when there is no finite value -/
+def slScalingNeeded (i : InT) (o : OutT) (data : List Val) : Bool :=
+  awScalingNeeded i o data && (finiteRange data).1.isSome
+
+/-! ## the scale calculators -/
+
+/-- `SlopeArrayWriter._range_scale` (:414-438): slope only (ideal value, before the float32 cast) -/
+def rangeScaleSlope (o : OutT) (inMin inMax : Rat) : Except Err Rat :=
+  if o.isU then
+    if inMin < 0 ∧ 0 < inMax then .error .writer
+    else if inMax ≤ 0 then .ok (inMin / o.omax)
+    else .ok (inMax / o.omax)
+  else .ok (max (inMax / o.omax) (inMin / o.omin))
+
+/-- `SlopeInterArrayWriter._range_scale` (:577-684).  `sh = shared_range(float32, out)`.
+    Returns `(slope, inter)` as stored (after `rnd`). A stored slope of 0 is reported as the `HeaderDataError`
+    every slope-capable header raises for it (the intermediate float warnings are not modelled). -/
+def rangeScaleInter (rnd : Rat → Rat) (o : OutT) (sh : Int × Int) (nanFit : Bool)
+    (inMin inMax : Rat) : Except Err (Rat × Rat) :=
+  if inMax = inMin then .ok (1, rnd inMin)
+  else
+    let omn : Rat := sh.1
+    let omx : Rat := sh.2
+    let slope0 := (inMax - inMin) / (omx - omn)
+    let (inter0, slope1) :=
+      if sh.1 = 0 ∧ rabs inMax < rabs inMin then (inMax + omn * slope0, -slope0)
+      else (inMin - omn * slope0, slope0)
+    let b := rnd inter0
+    let s := rnd slope1
+    if s = 0 then .error .headerData
+    else if !(decide (inMin = 0 ∨ inMax = 0) && nanFit) then .ok (s, b)
+    else
+      let nanFillF := -b / s
+      let nanFillI := rint nanFillF
+      if o.omin ≤ nanFillI ∧ nanFillI ≤ o.omax then .ok (s, b)
+      else .ok (s, rnd (-(clipR nanFillF omn omx) * s))
+
+/-- which `_range_scale` the (polymorphic) `self._range_scale` call reaches -/
+inductive Writer | plain | slope | slopeInter
+  deriving DecidableEq, Repr
+
+def rangeScale (w : Writer) (rnd : Rat → Rat) (o : OutT) (sh : Int × Int) (nanFit : Bool)
+    (inMin inMax : Rat) : Except Err (Rat × Rat) :=
+  match w with
+  | .slopeInter => rangeScaleInter rnd o sh nanFit inMin inMax
+  | _ => do
+      let s ← rangeScaleSlope o inMin inMax
+      let s := rnd s
+      if s = 0 then .error .headerData else .ok (s, 0)
+
+/-- `SlopeArrayWriter._iu2iu` (:395-412): sign flip for uint output, else range scaling -/
+def iu2iuSlope (w : Writer) (rnd : Rat → Rat) (o : OutT) (sh : Int × Int) (mn mx : Int) : Except Err (Rat × Rat) :=
+  if o.isU ∧ mx ≤ 0 ∧ (mn.natAbs : Int) ≤ sh.2 then .ok (-1, 0)
+  else rangeScale w rnd o sh false mn mx
+
+/-- `SlopeInterArrayWriter._iu2iu` (:539-575): intercept only when the data range fits the (shared) type range.
+    `p32` = significand bits of the scaler dtype. -/
+def iu2iuInter (rnd : Rat → Rat) (p32 : Nat) (o : OutT) (sh : Int × Int) (mn mx : Int) : Except Err (Rat × Rat) :=
+  let typeRange := sh.2 - sh.1
+  let mn2mx := mx - mn
+  let fall := iu2iuSlope .slopeInter rnd o sh mn mx
+  if mn2mx ≤ typeRange then
+    let inter :=
+      if sh.1 = 0 then floorExact p32 (mn - sh.1)
+      else floorExact p32 (mn + (mn2mx + 1) / 2)       -- mn + ceil(mn2mx / 2)
+    if mx - inter ≤ sh.2 then .ok (1, (inter : Rat)) else fall
+  else fall
+
+/-- `_do_scaling` (:373-393) for a writer class; `fr = (mn, mx)` finite range; integers carry integral `mn, mx` -/
+def doScaling (w : Writer) (rnd : Rat → Rat) (p32 : Nat) (i : InT) (o : OutT) (mn mx : Rat) (hasNan : Bool) :
+    Except Err (Rat × Rat) :=
+  let sh := sharedRange p32 o
+  match i with
+  | .flt _ =>
+      let (mn', mx') := if hasNan then (min mn 0, max mx 0) else (mn, mx)
+      rangeScale w rnd o sh hasNan mn' mx'
+  | .int _ _ =>
+      match w with
+      | .slopeInter => iu2iuInter rnd p32 o sh mn.floor mx.floor
+      | _ => iu2iuSlope w rnd o sh mn.floor mx.floor
+
+/-- `make_array_writer(data, out, has_slope, has_intercept)` + `calc_scale` + `get_slope_inter`:
+    the `(slope, inter)` the writer ends with, or the error its constructor raises. -/
+def writerScale (w : Writer) (rnd : Rat → Rat) (p32 : Nat) (i : InT) (o : OutT) (data : List Val) :
+    Except Err (Rat × Rat) :=
+  match w with
+  | .plain => if awScalingNeeded i o data then .error .writer else .ok (1, 0)
+  | _ =>
+    if slScalingNeeded i o data then
+      match finiteRange data with
+      | (some (mn, mx), hn) => doScaling w rnd p32 i o mn mx hn
+      | (none, _) => .ok (1, 0)
+    else .ok (1, 0)
+
+/-! ## array_to_file -/
+
+/-- extended integers for the rounded thresholds `post_mn`, `post_mx` -/
+inductive ExtI | ninf | fin (i : Int) | pinf
+  deriving DecidableEq, Repr
+
+def ExtI.le : ExtI → ExtI → Bool
+  | .ninf, _ => true
+  | _, .pinf => true
+  | .fin a, .fin b => decide (a ≤ b)
+  | _, _ => false
+
+/-- `np.clip(x, lo, hi)` for an extended `x` -/
+def ExtI.clip (x : ExtI) (lo hi : Int) : Int :=
+  match x with
+  | .ninf => min lo hi
+  | .fin i => clipI i lo hi
+  | .pinf => hi
+
+/-- `rint((x - inter) / slope)` of a threshold; `none` = that side is infinite (`lower = true`: −inf else +inf) -/
+def scaleThresh (s b : Rat) (lower : Bool) (x : Option Rat) : ExtI :=
+  match x with
+  | some r => .fin (rint ((r - b) / s))
+  | none => if (0 < s) = lower then .ninf else .pinf
+
+/-- the two post-scale clip thresholds AFTER the fix (volumeutils.py:700-703): both clamped into the shared range -/
+def postBounds (pmn pmx : ExtI) (bmn bmx : Int) : Int × Int := (pmn.clip bmn bmx, pmx.clip bmn bmx)
+
+/-- ORIGINAL logic (before 37e49301): `post_mn = max(post_mn, both_mn); post_mx = min(post_mx, both_mx)` -/
+def postBoundsOrig (pmn pmx bmn bmx : Int) : Int × Int := (max pmn bmn, min pmx bmx)
+
+/-- one element through `_write_data` (:760-779): scale, rint, clip, nan fill -/
+def scaleVal (s b : Rat) (lo hi : Int) (nanFill : Option Int) : Val → Except Err Int
+  | .fin v => .ok (clipI (rint ((v - b) / s)) lo hi)
+  | .pinf => .ok (if 0 < s then hi else min lo hi)
+  | .ninf => .ok (if 0 < s then min lo hi else hi)
+  | .nan => match nanFill with
+            | some f => .ok f
+            | none => .error .castNaN      -- NaN cast to an integer: undefined, NumPy warns
+
+/-- the nan-fill range test (volumeutils.py:683-699) -/
+def nanFillCheck (p : Nat) (s b : Rat) (nanFill bmn bmx : Int) : Except Err Int :=
+  if bmn ≤ nanFill ∧ nanFill ≤ bmx then .ok nanFill
+  else
+    let estErr := rint (2 * (2 : Rat) ^ (1 - (p : Int)) * rabs (b / s))
+    if (nanFill < bmn ∧ (bmn - nanFill) < estErr) ∨ (bmx < nanFill ∧ (nanFill - bmx) < estErr) then
+      .ok (clipI nanFill bmn bmx)
+    else .error .value
+
+/-- scaled path of `array_to_file` (volumeutils.py:641-715) for stored `(s, b)`, `s ≠ 0`;
+    `dtMn/dtMx` = `_dt_min_max(cast_in_dtype, mn, mx)` (`none` = ∓inf), `bm = shared_range(w_type, out)` -/
+def scaledWrite (p : Nat) (s b : Rat) (dtMn dtMx : Option Rat) (bm : Int × Int) (nan2zero : Bool)
+    (data : List Val) : Except Err (List Int) := do
+  let pmn0 := scaleThresh s b true dtMn
+  let pmx0 := scaleThresh s b false dtMx
+  let (pmn, pmx) := if pmn0.le pmx0 then (pmn0, pmx0) else (pmx0, pmn0)
+  let nanFill ← if nan2zero then (nanFillCheck p s b (rint ((0 - b) / s)) bm.1 bm.2).map some else pure none
+  let (lo, hi) := postBounds pmn pmx bm.1 bm.2
+  data.mapM (scaleVal s b lo hi nanFill)
+
+/-- `(mn, mx) == (0, 0) or (mn is not None and mx is not None and mx < mn)` → `write_zeros` (volumeutils.py:598-600) -/
+def writeZeros (mn mx : Option Rat) : Bool :=
+  match mn, mx with
+  | some a, some c => (a == 0 && c == 0) || decide (c < a)
+  | _, _ => false
+
+/-- integer input, null scaling (volumeutils.py:603-604, 622-629): direct cast when `np.can_cast`, else clip to the
+    intersection of the (thresholded) input range and the output range, then cast -/
+def intNullWrite (imin imax : Int) (o : OutT) (mn mx : Option Rat) (data : List Val) : Except Err (List Int) :=
+  if canCast (.int imin imax) o then
+    data.mapM fun v => match v with | .fin r => .ok r.floor | _ => .error .castNaN
+  else
+    let lo := max ((mn.map Rat.floor).getD imin) o.omin
+    let hi := min ((mx.map Rat.floor).getD imax) o.omax
+    data.mapM fun v => match v with | .fin r => .ok (clipI r.floor lo hi) | _ => .error .castNaN
+
+/-- `array_to_file(data, fileobj, out, intercept=b, divslope=s, mn, mx, nan2zero)` for integer `out`
+    (volumeutils.py:586-715); returns the integers written. -/
+def arrayToFile (i : InT) (o : OutT) (s b : Rat) (mn mx : Option Rat) (nan2zero : Bool)
+    (data : List Val) : Except Err (List Int) :=
+  if s = 0 then .error .value
+  else if writeZeros mn mx then .ok (data.map fun _ => 0)               -- write_zeros
+  else
+    match i with
+    | .int imin imax =>
+        if b = 0 ∧ s = 1 then intNullWrite imin imax o mn mx data
+        else
+          -- integer input with real scaling: nan2zero is switched off (volumeutils.py:630-632)
+          scaledWrite (workingPrec i) s b (some (mn.getD imin)) (some (mx.getD imax))
+            (sharedRange (workingPrec i) o) false data
+    | .flt _ =>
+        scaledWrite (workingPrec i) s b mn mx (sharedRange (workingPrec i) o) nan2zero data
+
+/-- `apply_read_scaling` (volumeutils.py:868-925), exact -/
+def applyReadScaling (s b : Rat) (q : Int) : Rat := q * s + b
+
+/-! ## image classes -/
+
+inductive Cls | nifti | spm | analyze | mgh
+  deriving DecidableEq, Repr
+
+def Cls.writer : Cls → Writer
+  | .nifti => .slopeInter      -- has_data_slope, has_data_intercept (nifti1.py:826-827)
+  | .spm => .slope             -- spm99analyze.py:43-44
+  | .analyze => .plain         -- analyze.py:193-194
+  | .mgh => .plain             -- (not used: MGH bypasses the array writers)
+
+/-- `hdr.set_slope_inter(slope, inter)` refusals (analyze.py:772-792, spm99analyze.py:65-92, nifti1.py:1406-1438) -/
+def setSlopeInter (c : Cls) (s b : Rat) : Except Err Unit :=
+  match c with
+  | .analyze | .mgh => if s = 1 ∧ b = 0 then .ok () else .error .headerType
+  | .spm => if s = 0 then .error .headerData else if b = 0 then .ok () else .error .headerType
+  | .nifti => if s = 0 then .error .headerData else .ok ()
+
+/-- `_writing_range` (:340-348) and `_needs_nan2zero` (:181-188) feeding `to_fileobj` -/
+def writingRange (w : Writer) (i : InT) (data : List Val) : Option Rat × Option Rat :=
+  match w, i with
+  | .plain, _ => (none, none)
+  | _, .flt _ => match (finiteRange data).1 with
+                 | some (mn, mx) => (some mn, some mx)
+                 | none => (some 0, some 0)
+  | _, .int _ _ => (none, none)
+
+def needsNan2zero (i : InT) (data : List Val) : Bool :=
+  match i with
+  | .flt _ => (finiteRange data).2
+  | .int _ _ => false
+
+/-- `img.to_file_map()` restricted to what C02 observes: `(stored slope, stored inter, raw integers)` or the error.
+    MGH: `MGHImage._write_data` calls `array_to_file(data, f, out_dtype, offset)` directly — default
+    `intercept=0, divslope=1, mn=mx=None, nan2zero=True`; there is no writer, so no refusal. -/
+def save (c : Cls) (rnd : Rat → Rat) (p32 : Nat) (i : InT) (o : OutT) (data : List Val) :
+    Except Err (Rat × Rat × List Int) :=
+  match c with
+  | .mgh => do
+      let raw ← arrayToFile i o 1 0 none none true data
+      .ok (1, 0, raw)
+  | _ => do
+      let w := c.writer
+      let (s, b) ← writerScale w rnd p32 i o data
+      setSlopeInter c s b
+      let (mn, mx) := writingRange w i data
+      let raw ← arrayToFile i o s b mn mx (needsNan2zero i data) data
+      .ok (s, b, raw)
+
+/-! ## the pinned (pre-fix) clip, kept small for the witness theorem -/
+
+/-- one finite element with the ORIGINAL thresholds -/
+def scaleFinOrig (s b : Rat) (mn mx : Rat) (bmn bmx : Int) (v : Rat) : Int :=
+  let a := rint ((mn - b) / s)
+  let c := rint ((mx - b) / s)
+  let (pmn, pmx) := if a ≤ c then (a, c) else (c, a)
+  let (lo, hi) := postBoundsOrig pmn pmx bmn bmx
+  clipI (rint ((v - b) / s)) lo hi
+
+/-- the same element with the CURRENT thresholds -/
+def scaleFin (s b : Rat) (mn mx : Rat) (bmn bmx : Int) (v : Rat) : Int :=
+  let a := rint ((mn - b) / s)
+  let c := rint ((mx - b) / s)
+  let (pmn, pmx) := if a ≤ c then (a, c) else (c, a)
+  clipI (rint ((v - b) / s)) (clipI pmn bmn bmx) (clipI pmx bmn bmx)
 
 end Nb.C02
